@@ -31,8 +31,9 @@ func (e c14Entry) kind() string {
 func c14Docs() []bson.D {
 	i := func(v int) int32 { return int32(v) }
 	full := bD("_id", i(1),
-		"a", bD("b", bD("c", i(1), "d", i(2)), "e", bson.A{i(1), i(2), i(3), i(4)}, "f", "x"),
+		"a", bD("b", bD("c", i(1), "d", i(2)), "bb", i(5), "e", bson.A{i(1), i(2), i(3), i(4)}, "f", "x"),
 		"t", bson.A{i(5), i(6), i(7)},
+		"tt", bson.A{i(8), i(9)},
 		"r", bson.A{bD("x", i(1), "y", i(1)), bD("x", i(2), "y", i(2)), bD("x", i(2), "y", i(3))},
 		"z", nil)
 	return []bson.D{
@@ -47,7 +48,7 @@ func c14Docs() []bson.D {
 }
 
 func c14Paths() []string {
-	return []string{"_id", "a", "a.b", "a.b.c", "a.e", "a.zz", "t", "r", "zz"}
+	return []string{"_id", "a", "a.b", "a.bb", "a.b.c", "a.e", "a.zz", "t", "tt", "r", "zz"}
 }
 
 func c14Flags(level int) []interface{} {
@@ -169,7 +170,7 @@ func init() {
 			for _, a := range e3 {
 				for _, b := range e3 {
 					for _, cc := range e3 {
-						ok := func(p string) bool { return p == "_id" || p == "a" || p == "a.b" || p == "a.e" || p == "r" }
+						ok := func(p string) bool { return p == "_id" || p == "a" || p == "a.b" || p == "a.bb" || p == "a.e" || p == "r" }
 						if a.path != b.path && a.path != cc.path && b.path != cc.path && ok(a.path) && ok(b.path) && ok(cc.path) {
 							projs = append(projs, []c14Entry{a, b, cc})
 						}
@@ -178,7 +179,7 @@ func init() {
 			}
 		}
 		triples := len(projs) - singles - pairs
-		var evals, inDomain, errorsBoth, overlapping, mutationChecks int64
+		var evals, inDomain, errorsBoth, overlapping, mutationChecks, listFinds int64
 		outcomes := map[string]bool{}
 		par.For(len(projs), r.TooMany, func(pi int) {
 			ents := projs[pi]
@@ -200,6 +201,7 @@ func init() {
 			if len(ents) > 1 {
 				reps = 8 // Project merges its entries through a map: several runs cover the iteration orders
 			}
+			singles := make([]string, len(docs)) // per-document result of this projection ("" = rejected)
 			for di, doc := range docs {
 				w := world.New()
 				coll := w.C("d", "c")
@@ -233,6 +235,9 @@ func init() {
 						_ = coll.FindOne(w.Ctx, bD()).Decode(&now)
 						r.Violation("stored-document-altered:"+c14Shape(ents), label+": the stored document is now "+J(now), rp)
 						before = after
+					}
+					if err == nil && rep == 0 {
+						singles[di] = J(canonSorted(got)) // overlays are merged in map order: compared up to field order
 					}
 					if err != nil {
 						if werr == nil && !overlap && !outsideRef {
@@ -269,6 +274,45 @@ func init() {
 				}
 				w.Close()
 			}
+			// the same projection over all documents in one Find: every result equals the single-document result
+			// (nothing carries over from one document to the next)
+			all := true
+			for _, sres := range singles {
+				if sres == "" {
+					all = false
+				}
+			}
+			if all {
+				w := world.New()
+				coll := w.C("d", "c")
+				for _, doc := range docs {
+					_, _ = coll.InsertOne(w.Ctx, doc)
+				}
+				for rep := 0; rep < reps; rep++ {
+					cur, err := coll.Find(w.Ctx, bD(), options.Find().SetProjection(proj))
+					var got []bson.D
+					if err == nil {
+						err = cur.All(w.Ctx, &got)
+					}
+					atomic.AddInt64(&listFinds, 1)
+					if err != nil || len(got) != len(docs) {
+						r.Violation("list:"+c14Shape(ents), fmt.Sprintf("Find({}) with projection %s over all documents: %d results, err %v, although every single document projects fine", J(proj), len(got), err), map[string]interface{}{"projection": J(proj)})
+						break
+					}
+					bad := false
+					for i := range got {
+						if J(canonSorted(got[i])) != singles[i] {
+							r.Violation("list:"+c14Shape(ents), fmt.Sprintf("Find({}) with projection %s: document %d of the list comes back as %s, projected on its own it is %s", J(proj), i, J(got[i]), singles[i]), map[string]interface{}{"projection": J(proj), "position": i})
+							bad = true
+							break
+						}
+					}
+					if bad {
+						break
+					}
+				}
+				w.Close()
+			}
 		})
 		r.Set("evaluations", evals)
 		r.Set("grammar_sizes", map[string]interface{}{"documents": len(docs), "paths": len(paths), "single_entry_projections": singles, "pair_projections": pairs, "triple_projections": triples})
@@ -277,10 +321,11 @@ func init() {
 		r.Set("overlapping_paths_laws_only", overlapping)
 		r.Set("rejected_by_both", errorsBoth)
 		r.Set("stored_document_checks", mutationChecks)
+		r.Set("multi_document_finds", listFinds)
 		r.Set("distinct_nontrivial", inDomain)
 		r.Set("exhaustive", !r.TooMany())
 		r.Set("samples", []interface{}{map[string]interface{}{"documents": J(docs)}, map[string]interface{}{"paths": paths}, map[string]interface{}{"flags": J(bson.A(c14Flags(1)))}})
-		r.Set("rule", "every projection of 1 entry (9 paths x 50 flags: numeric/boolean/invalid flags, $slice counts and [skip,limit] pairs incl. negative and out-of-range, $elemMatch conditions), every ordered pair of entries with distinct paths over an 8-flag core and every ordered triple over a 4-flag core (incl. overlapping paths such as a with a.b) on each of 7 documents through FindOne with SetProjection: (i) mixing inclusion and exclusion or a malformed flag is rejected, (ii) every value in the result is the stored value at its path (arrays under $slice/$elemMatch must be windows of the stored array), (iii) the result equals the reference projection when no path is a prefix of another, (iv) the byte dump of the whole database is unchanged after every call; projections of several entries are executed 8 times each")
+		r.Set("rule", "every projection of 1 entry (9 paths x 50 flags: numeric/boolean/invalid flags, $slice counts and [skip,limit] pairs incl. negative and out-of-range, $elemMatch conditions), every ordered pair of entries with distinct paths over an 8-flag core and every ordered triple over a 4-flag core (incl. overlapping paths such as a with a.b) on each of 7 documents through FindOne with SetProjection: (i) mixing inclusion and exclusion or a malformed flag is rejected, (ii) every value in the result is the stored value at its path (arrays under $slice/$elemMatch must be windows of the stored array), (iii) the result equals the reference projection when no path is a prefix of another, (iv) the byte dump of the whole database is unchanged after every call, (v) one Find over all documents returns for each document what its single-document projection returns; projections of several entries are executed 8 times each")
 		r.Assume("lungo merges projection entries through a Go map: 8 repetitions per multi-entry projection is repetition, not enumeration, of that one dimension", "overlapping paths (a path that is a prefix of another) are accepted by lungo and rejected by MongoDB; they are checked by (ii) and (iv) only")
 		if inDomain < 5000 {
 			r.Broken("vacuity: only %d results compared with the reference", inDomain)
